@@ -3440,9 +3440,24 @@ class ISLaEmitter(IslaLanguageListener.IslaLanguageListener):
             bound_var_type = xpath_expr[1][0][0]
             assert is_nonterminal(bound_var_type)
 
-            assert (
-                len(xpath_expr) == 2 and len(xpath_expr[1]) == 1
-            ), "If this fails, uncomment the else branch in the source code."
+            if len(xpath_expr) == 2 and len(xpath_expr[1]) == 1:
+                bound_var = final_bound_variable
+            else:
+                bound_var = fresh_bound_variable(
+                    self.used_variables,
+                    BoundVariable(bound_var_type[1:-1], bound_var_type),
+                    add=False,
+                )
+                self.used_variables = self.used_variables | FrozenOrderedSet(
+                    [bound_var.name]
+                )
+                self.vars_for_xpath_expressions[
+                    list_set(
+                        xpath_expr[1:],
+                        0,
+                        list_set(xpath_expr[1], 0, (bound_var.name, 0)),
+                    )
+                ] = final_bound_variable
 
             # NOTE: Previously, the following else branch was in place here, but it was
             #       never executed. Leaving this here for the moment in case it covers
@@ -3463,7 +3478,7 @@ class ISLaEmitter(IslaLanguageListener.IslaLanguageListener):
 
             formula = univ_close_over_var_push_in(
                 formula,
-                final_bound_variable,
+                bound_var,
                 in_var=in_var,
                 qfd_vars=final_bound_variable,
             )
